@@ -692,3 +692,61 @@ func c08FixedTtlForEveryConfiguredValue(c *Ctx, rule string) {
 			return ""
 		}())
 }
+
+// c09TimeoutClosesPipelinedConn: a pipelined (TCP/TLS) upstream connection on which a query timed out or was
+// cancelled is closed unconditionally: its pipeline id is freed for the next query, and a late answer to the
+// abandoned query would be delivered to that next query.
+func c09TimeoutClosesPipelinedConn(c *Ctx, rule string) {
+	f := c.fn(rule, "control", "pipelinedConn.RoundTrip")
+	if f == nil {
+		return
+	}
+	info := f.Info()
+	g := f.Graph()
+	n, bad := 0, ""
+	for _, p := range g.Find(func(nd ast.Node) bool {
+		r := false
+		ownCalls(nd, func(call *ast.CallExpr, deferred bool) {
+			if recv, name, isM := methodCall(call); isM && name == "Close" && !deferred {
+				if id, ok := ast.Unparen(recv).(*ast.Ident); ok {
+					if t := info.TypeOf(id); t != nil && strings.HasSuffix(t.String(), "pipelinedConn") {
+						r = true
+					}
+				}
+			}
+		})
+		return r
+	}) {
+		onCtxErr := false
+		var extra []string
+		for _, gd := range g.Guards(p) {
+			s := core.ExprStr(gd.Cond)
+			switch {
+			case strings.Contains(s, "context.DeadlineExceeded") || strings.Contains(s, "context.Canceled"):
+				if gd.Polarity {
+					onCtxErr = true
+				}
+			case isNilCmpOf(gd.Cond, "err"):
+			default:
+				extra = append(extra, s)
+			}
+		}
+		if !onCtxErr {
+			continue
+		}
+		n++
+		if len(extra) > 0 && bad == "" {
+			bad = fmt.Sprintf("the close at %s is additionally conditional on %s", c.pos(p.Node().Pos()), strings.Join(extra, ", "))
+		}
+	}
+	c.R.Checkf(rule, "timed-out-query-closes-the-pipelined-connection@RoundTrip", c.pos(f.Pos()), bad == "" && n >= 1,
+		"after a deadline/cancel error the connection is closed on every path (%d close site(s) on that edge)%s", n, func() string {
+			if bad != "" {
+				return " — VIOLATED: " + bad + ": the abandoned query's id is handed to the next query on the surviving connection and the late answer is delivered to it"
+			}
+			if n == 0 {
+				return " — VIOLATED: no close on the deadline/cancel edge"
+			}
+			return ""
+		}())
+}
